@@ -50,3 +50,68 @@ func num(v any) (int64, bool) {
 	}
 	return 0, false
 }
+
+func init() {
+	// a load case: scripts, visiting order, number of real loads
+	replayers["load"] = func(e *emitter, c map[string]any) {
+		lc := loadCase{}
+		if ss, ok := c["scripts"].([]any); ok {
+			for _, s := range ss {
+				m, _ := s.(map[string]any)
+				lc.Scripts = append(lc.Scripts, scriptSrc{unhx(m["name"]), unhx(m["src"])})
+			}
+		}
+		if os, ok := c["order"].([]any); ok {
+			for _, o := range os {
+				lc.Order = append(lc.Order, unhx(o))
+			}
+		}
+		if rs, ok := c["real"].([]any); ok {
+			lc.Reps = len(rs)
+		}
+		out := loadV1(lc)
+		carryOver(out, c)
+		e.emit(out)
+	}
+	// a history: the operations are run cases
+	replayers["hist"] = func(e *emitter, c map[string]any) {
+		ops := []runCase{}
+		if os, ok := c["ops"].([]any); ok {
+			for _, o := range os {
+				if m, ok := o.(map[string]any); ok {
+					ops = append(ops, runCaseOf(m))
+				}
+			}
+		}
+		out := histV1(ops)
+		carryOver(out, c)
+		e.emit(out)
+	}
+	// a batch of literals
+	replayers["lit"] = func(e *emitter, c map[string]any) {
+		lits := []string{}
+		if ls, ok := c["lits"].([]any); ok {
+			for _, l := range ls {
+				if a, ok := l.([]any); ok && len(a) > 0 {
+					lits = append(lits, unhx(a[0]))
+				}
+			}
+		}
+		gen, _ := c["gen"].(string)
+		emitLits(e, lits, gen)
+	}
+	// stored tree positions of a text
+	replayers["treepos"] = func(e *emitter, c map[string]any) {
+		src := unhx(c["src"])
+		res := parseTreeV1(src)
+		e.emit(map[string]any{"k": "treepos", "src": hx(src), "ast": res["ast"], "gen": "replay", "key": src})
+	}
+	// error-chain operation sequences
+	replayers["chainops"] = func(e *emitter, c map[string]any) {
+		b, _ := json.Marshal(c["ops"])
+		var ops []chainOp
+		if json.Unmarshal(b, &ops) == nil {
+			runChainOps(e, ops, "replay")
+		}
+	}
+}
